@@ -57,12 +57,12 @@ func GenerateSimilar(r *core.Rng, c SimilarCfg) *Doc {
 		t := tmpl{state: r.Pick("chan receive", "select", "IO wait", "semacquire", "sleep", "running")}
 		nf := r.Range(1, 3)
 		for i := 0; i < nf; i++ {
-			t.frames = append(t.frames, r.Pick("main", "main", "github.com/foo/bar", "runtime", "github.com/foo/qux")+"."+r.Pick("worker", "(*T).Run", "loop", "gopark", "Serve"))
+			t.frames = append(t.frames, r.Pick("main", "main", "github.com/foo/bar", "runtime", "github.com/foo/qux", "github.com/foo/bar/vendor/github.com/x/y")+"."+r.Pick("worker", "(*T).Run", "loop", "gopark", "Serve"))
 			t.files = append(t.files, files[r.Intn(len(files))])
 			t.lines = append(t.lines, r.Range(10, 40))
 			var sl []slot
 			for j, n := 0, r.Range(0, 4); j < n; j++ {
-				sl = append(sl, slot{kind: r.Intn(5), val: uint64(r.Intn(200))})
+				sl = append(sl, slot{kind: r.Intn(6), val: uint64(r.Intn(200))})
 			}
 			t.slots = append(t.slots, sl)
 		}
@@ -135,6 +135,12 @@ func GenerateSimilar(r *core.Rng, c SimilarCfg) *Doc {
 						args = append(args, fmt.Sprintf("0x%x", shared[r.Intn(len(shared))]))
 					case 4:
 						args = append(args, fmt.Sprintf("{0x%x, 0x%x}", sl.val, 0xc000000000+uint64(r.Intn(1<<20))*8))
+					case 5: // a pointer in some goroutines, nil in others
+						if r.Chance(0.5) {
+							args = append(args, "0x0")
+						} else {
+							args = append(args, fmt.Sprintf("0x%x", 0xc000000000+uint64(r.Intn(1<<20))*8))
+						}
 					}
 				}
 				g.Frames = append(g.Frames, Frame{
